@@ -223,6 +223,13 @@ Fixpoint after_stop_obs (f : flags) (s : st) (evs : list event) : list obs :=
   | e :: r => let '(s', o) := step f s e in (if stopped s then o else []) ++ after_stop_obs f s' r
   end.
 
+(* what happens after remove() returned: the transfer is gone from the manager's list for good *)
+Fixpoint after_remove_obs (f : flags) (s : st) (evs : list event) : list obs :=
+  match evs with
+  | [] => []
+  | e :: r => let '(s', o) := step f s e in (if sremoved s then o else []) ++ after_remove_obs f s' r
+  end.
+
 Definition n_live (kd : kind) (s : st) : nat := length (filter (fun t => eqb_kind (kkind t) kd) (live s)).
 
 (* at most one live task per slot kind at every point of the run *)
@@ -246,3 +253,66 @@ Definition snapshot (s : st) : nat * bool * nat * nat * bool * bool :=
   (st_code (sstate s), srq s, n_live RQ s, n_live TR s, slot_live s (slot_rq s), slot_live s (slot_tr s)).
 Fixpoint trace (f : flags) (s : st) (evs : list event) : list (nat * bool * nat * nat * bool * bool) :=
   match evs with [] => [] | e :: r => let s' := fst (step f s e) in snapshot s' :: trace f s' r end.
+
+(* ================================================================================================
+   A management cycle INSIDE a running stop call.  abort/pause take the transfer's state lock, cancel the
+   slot's task, await it (the task needs a loop iteration to finish), and only then change the state.  In
+   between the transfer is still QUEUED.  Small separate machine for one download and its remote-queue
+   slot, with the repaired F03 discipline (a cycle skips a slot whose task is not done):
+   [lock_guard] = the cycle also skips a transfer whose state lock is held (CYCLE_SKIPS_LOCKED). *)
+Inductive ipc := IRun | ICancelling.
+Record ist := mkI {
+  i_queued : bool;                 (* QUEUED (true) or ABORTED/PAUSED (false) *)
+  i_slot : option nat;
+  i_live : list (nat * ipc);       (* tasks that are not done *)
+  i_locked : bool;                 (* a stop call holds the state lock *)
+  i_next : nat;
+  i_stopped : bool                 (* ghost: a stop call returned, no re-queue since *)
+}.
+Inductive ievent :=
+  | ICycle | IStopBegin | IReap (k : nat) | IStopEnd | IDeliver (k : nat) | IFail (k : nat) | IRequeue.
+Inductive iobs := ISend (k : nat) | IField (k : nat).
+
+Definition i_is_live (s : ist) (k : nat) : bool := existsb (fun t => fst t =? k) (i_live s).
+Definition i_slot_free (s : ist) : bool := match i_slot s with None => true | Some k => negb (i_is_live s k) end.
+Definition i_init : ist := mkI true None [] false 0 false.
+
+Definition istep (lock_guard : bool) (s : ist) (e : ievent) : ist * list iobs :=
+  match e with
+  | ICycle =>
+      if i_queued s && i_slot_free s && (negb lock_guard || negb (i_locked s))
+      then (mkI true (Some (i_next s)) (i_live s ++ [(i_next s, IRun)]) (i_locked s) (S (i_next s)) (i_stopped s), [])
+      else (s, [])
+  | IStopBegin =>
+      if i_queued s && negb (i_locked s)
+      then (mkI true (i_slot s)
+                (map (fun t => if match i_slot s with Some k => fst t =? k | None => false end then (fst t, ICancelling) else t) (i_live s))
+                true (i_next s) (i_stopped s), [])
+      else (s, [])
+  | IReap k =>      (* the cancelled task processes its cancellation and is done *)
+      (mkI (i_queued s) (i_slot s) (filter (fun t => negb ((fst t =? k) && match snd t with ICancelling => true | IRun => false end)) (i_live s))
+           (i_locked s) (i_next s) (i_stopped s), [])
+  | IStopEnd =>     (* gather returned: every task the call cancelled is done *)
+      if i_locked s && forallb (fun t => match snd t with ICancelling => false | IRun => true end) (i_live s)
+      then (mkI false (i_slot s) (i_live s) false (i_next s) true, [])
+      else (s, [])
+  | IDeliver k =>
+      if existsb (fun t => (fst t =? k) && match snd t with IRun => true | ICancelling => false end) (i_live s)
+      then (mkI (i_queued s) (i_slot s) (filter (fun t => negb (fst t =? k)) (i_live s)) (i_locked s) (i_next s) (i_stopped s),
+            [ISend k; IField k])
+      else (s, [])
+  | IFail k =>      (* the attempt fails: state.queue() re-queues an ABORTED/PAUSED transfer *)
+      if existsb (fun t => (fst t =? k) && match snd t with IRun => true | ICancelling => false end) (i_live s)
+      then (mkI true (i_slot s) (filter (fun t => negb (fst t =? k)) (i_live s)) (i_locked s) (i_next s) (i_stopped s),
+            [IField k])
+      else (s, [])
+  | IRequeue => if i_queued s then (s, []) else (mkI true (i_slot s) (i_live s) (i_locked s) (i_next s) false, [])
+  end.
+
+Fixpoint i_after_stop_obs (g : bool) (s : ist) (evs : list ievent) : list iobs :=
+  match evs with
+  | [] => []
+  | e :: r => let '(s', o) := istep g s e in (if i_stopped s then o else []) ++ i_after_stop_obs g s' r
+  end.
+Fixpoint irun (g : bool) (s : ist) (evs : list ievent) : ist :=
+  match evs with [] => s | e :: r => irun g (fst (istep g s e)) r end.
